@@ -329,6 +329,7 @@ type Contract struct {
 	Requires   []Clause
 	Ensures    []Clause
 	Defines    []Clause
+	GhostSets  [][2]Clause
 	Modifies   []Clause
 	ModAll     bool // modifies *
 	Loops      map[int]*LoopSpec
@@ -367,7 +368,7 @@ func NewContractSet() *ContractSet {
 }
 
 var clauseKeywords = map[string]bool{
-	"requires": true, "ensures": true, "defines": true, "modifies": true, "invariant": true, "decreases": true,
+	"requires": true, "ensures": true, "defines": true, "ghostset": true, "modifies": true, "invariant": true, "decreases": true,
 	"panics": true, "mode": true, "trusted": true, "inline": true, "loop": true, "func": true,
 	"extern": true, "extfunc": true, "spec": true, "property": true, "pure": true, "lemma": true, "noeffect": true,
 	"opt": true, "interface": true,
@@ -574,6 +575,21 @@ func (cs *ContractSet) ParseFile(path string, pkgPath string) error {
 					return err
 				}
 				cur.Ensures = append(cur.Ensures, cl)
+			case "ghostset":
+				// ghostset <ghost location> := <expr>: specification-only state written by this function
+				parts := strings.SplitN(text, ":=", 2)
+				if len(parts) != 2 {
+					return fmt.Errorf("%s:%d: ghostset needs ':='", path, line)
+				}
+				le, err := parseSpecExpr(strings.TrimSpace(parts[0]))
+				if err != nil {
+					return fmt.Errorf("%s:%d: %v", path, line, err)
+				}
+				re, err := parseSpecExpr(strings.TrimSpace(parts[1]))
+				if err != nil {
+					return fmt.Errorf("%s:%d: %v", path, line, err)
+				}
+				cur.GhostSets = append(cur.GhostSets, [2]Clause{{Text: strings.TrimSpace(parts[0]), E: le, Line: line}, {Text: strings.TrimSpace(parts[1]), E: re, Line: line}})
 			case "defines":
 				// definitional clause: introduces an uninterpreted spec function as "what this function returns";
 				// assumed at call sites, not checked against the body (listed as an assumption)
